@@ -52,6 +52,14 @@ def generate(seed, profile):
     w = W.World(seed)
     rc = w.rng('cfg')
     cfg = profile.cfg_fn(rc) if profile.cfg_fn else G.swarm_config(rc, profile.cfg_bias)
+    # tuning knob (swarm style): in a minority of level-3/4 runs files are split into several extents at a few KiB
+    # instead of 4 GiB - 2 KiB, so that multi-extent files occur with small data (pycdlib's guarded hook)
+    rk = w.rng('knobs')
+    max_extent = None
+    if cfg.get('level', 1) >= 3 and rk.random() < getattr(profile, 'multi_extent_rate', 0.0):
+        max_extent = rk.choice((2048, 4096, 6144, 20480))
+        if getattr(profile, 'multi_extent_no_udf', False):
+            cfg['udf'] = False
     model = M.Model(cfg)
     g = G.OpGen(w.rng('ops'), w.rng('args'), model, weights=profile.weights, maxdepth=profile.maxdepth,
                 allow=profile.allow, size_choices=profile.sizes or G.SIZES)
@@ -74,6 +82,8 @@ def generate(seed, profile):
         model.apply(ops[-1])
     plan = {'seed': seed, 'profile': profile.name, 'cfg': cfg, 'env': w.env_record(),
             'blocksize': w.rng('env2').choice((2048, 4096, 32768, 32768, 65536, 1 << 20, 1000, 3000)), 'ops': ops}
+    if max_extent:
+        plan['env']['max_extent'] = max_extent
     if profile.post_gen:
         profile.post_gen(plan, w, model)
     return plan
@@ -109,6 +119,12 @@ class Ctx:
         """fatal=False: an image-level anomaly that does not make the run's
         state diverge from the model; the run goes on (each signature once)."""
         sig = [str(s) for s in sig]
+        # runs in which a file is recorded as several extents (the multi-extent knob is on and a file is longer than
+        # the threshold) carry a tag, so that what only fails there is told apart from what fails anywhere
+        me = self.world.max_extent
+        if me and any(b.length > me for b in self.model.blobs.values()):
+            n = max((b.length + me - 1) // me for b in self.model.blobs.values())
+            sig = ['multi-extent-file:%s' % ('2-extents' if n == 2 else '3+-extents')] + sig
         if any(v['sig'] == sig for v in self.violations):
             return
         self.violations.append({'sig': sig, 'detail': str(detail)[:2000]})
@@ -207,7 +223,7 @@ def result_of(ctx, extra=None):
 
 def execute(plan, oracle):
     env = plan['env']
-    w = W.World(plan['seed'], tz=env['tz'], clock0=env['clock0'], clock_mode=env['clock_mode'], cache=env['cache'])
+    w = W.World(plan['seed'], tz=env['tz'], clock0=env['clock0'], clock_mode=env['clock_mode'], cache=env['cache'], max_extent=env.get('max_extent'))
     with w:
         d = Driver(w, plan['cfg'])
         d.blocksize = plan.get('blocksize', 32768)
